@@ -4,17 +4,28 @@ From Coq Require Import String List NArith ZArith Bool.
 From J5V.lib Require Import Outcome.
 From J5V.model Require Import RulesDecl RulesWrite RulesRead RulesEnum RulesSpec Validate.
 From J5V.gen Require Id62Gen RulesGen.
+From J5V.model Require Import ProtoPrint ProtoPrintFile ProtoParseFile.
 From J5V.proofs Require Import RulesProofs RulesReadProofs RulesGenProofs RulesReadGenProofs.
+From J5V.model Require Import RulesView RulesTextModel ProtoPrintFileWf.
+From J5V.proofs Require Import ProtoPrintFileSemProofs ProtoPrintFileFullProofs RulesViewProofs RulesTextProofs.
 Import ListNotations.
 Local Open Scope N_scope.
 
 (* The property at full strength (first clause): for EVERY object whose
    properties compile, reading the emitted annotations back yields the declared
-   properties — names, order, proto paths, required / optional, types and
-   formats, flatten, key formats and entity keys, descriptions, validation and
-   list rules — up to the representation-only normal form of RulesRead.norm_prop. *)
+   properties. [norm_object] is computed from the declaration alone
+   (RulesRead.norm_prop: it calls no function of the writer or the reader): names,
+   order, proto paths [1..n], required / optional, types and formats, flatten,
+   key formats and entity keys, descriptions AS DECLARED, validation and list
+   rules — up to five representation-only identifications (exclusive flags that are
+   false or have no bound; absent enum / bytes rules = empty rules; absent array /
+   map rules = empty rules when the items are constrained; enum option names
+   without the prefix; primaryKey = false = no entity type; a primary key is
+   required). [zero_std]: the referenced enum's explicit zero option, if any, is
+   spelled UNSPECIFIED (with or without the prefix). *)
 Definition C04_full_statement : Prop :=
   forall env ds os,
+    zero_std env = true ->
     write_object env ds = Ok os -> read_object env os = Ok (norm_object env ds).
 
 (* What is proved: the same for every object whose properties lie in the
@@ -22,6 +33,7 @@ Definition C04_full_statement : Prop :=
    below. All rule values: absent, zero, boundary, both booleans. *)
 Theorem C04_partial :
   forall env ds os,
+    zero_std env = true ->
     forallb rt_ok ds = true ->
     write_object env ds = Ok os -> read_object env os = Ok (norm_object env ds).
 Proof. exact c04_object. Qed.
@@ -34,6 +46,7 @@ Print Assumptions C04_partial.
    exactly the complement of [rt_ok]. *)
 Theorem C04_exact :
   forall env ds os,
+    zero_std env = true ->
     write_object env ds = Ok os ->
     (read_object env os = Ok (norm_object env ds) <-> forallb rt_ok ds = true).
 Proof. exact c04_object_exact. Qed.
@@ -41,6 +54,7 @@ Print Assumptions C04_exact.
 
 Theorem C04_property_exact :
   forall env idx d o,
+    zero_std env = true ->
     write_prop env idx d = Ok o ->
     (read_prop env o = Ok (norm_prop env idx d) <-> rt_ok d = true).
 Proof. exact c04_prop_exact. Qed.
@@ -48,9 +62,25 @@ Print Assumptions C04_property_exact.
 
 Theorem C04_property :
   forall env idx d o,
+    zero_std env = true ->
     rt_ok d = true -> write_prop env idx d = Ok o -> read_prop env o = Ok (norm_prop env idx d).
 Proof. exact c04_prop. Qed.
 Print Assumptions C04_property.
+
+(* root schemas — for every object and every oneof: kind, name, description and the
+   properties (norm_root: kind / name / description as declared, properties in normal
+   form); exact as for properties *)
+Theorem C04_root : forall env d o,
+  zero_std env = true -> rt_root d = true ->
+  write_root env d = Ok o -> read_root env o = Ok (norm_root env d).
+Proof. exact c04_root. Qed.
+Print Assumptions C04_root.
+
+Theorem C04_root_exact : forall env d o,
+  zero_std env = true -> write_root env d = Ok o ->
+  (read_root env o = Ok (norm_root env d) <-> rt_root d = true).
+Proof. exact c04_root_exact. Qed.
+Print Assumptions C04_root_exact.
 
 (* second clause (the printed .proto text): reflection sees a field only through
    [c04_proj] (name, number, kind, label, optional keyword, the three annotations,
@@ -63,37 +93,132 @@ Theorem C04_text_clause : forall env os os',
 Proof. exact c04_text_clause. Qed.
 Print Assumptions C04_text_clause.
 
-(* names and order are those declared; proto paths are [1], [2], ... *)
-Theorem C04_names_order : forall env ds,
-  map (fun r => p_name (rp_prop r)) (norm_object env ds) = map p_name ds.
-Proof. exact norm_object_names. Qed.
-Print Assumptions C04_names_order.
+(* second clause, composed with family tool's file-level printer / parser model
+   (C05_file_canonical + C05_file_equiv): print a well-formed descriptor file of that
+   model, parse the printed tokens; every message is found again, and reading its
+   fields yields the same properties — for ANY way [view] of reading the reader's
+   annotation record off a field descriptor that depends on the field's content only
+   (not on source positions, not on the order of its options). Messages must list
+   their elements in print order (what the compiler produces).
+   The concrete view is C04_text_concrete below. What stays open is what the tool
+   model leaves open itself: characters between tokens, and options on the value
+   field of a map entry, which are not in its descriptors at all (the known finding
+   lives there: the correspondence compares the decoder with the harness dump
+   modulo the key annotation of map fields). *)
+Theorem C04_text_composed :
+  forall (view : dfield -> fout),
+    (forall f f', field_equiv f f' -> c04_proj (view f) = c04_proj (view f')) ->
+    forall env imp D,
+      wf_dfile imp D ->
+      exists D',
+        parse_file_tokens imp (print_file_tokens (to_symtab (dfile_symtab imp D)) D) = Some D' /\
+        forall k c n o body,
+          In (DMsg k c n o body) (d_body D) -> in_print_order body ->
+          exists k' o' body',
+            In (DMsg k' c n o' body') (d_body D') /\
+            read_object env (map view (body_fields body')) = read_object env (map view (body_fields body)).
+Proof. exact c04_text_composed. Qed.
+Print Assumptions C04_text_composed.
 
-Theorem C04_proto_paths : forall env ds,
-  map rp_path (norm_object env ds) = map (fun i => [N.of_nat i]) (seq 1 (length ds)).
-Proof. exact norm_object_paths. Qed.
-Print Assumptions C04_proto_paths.
+(* ... and with the concrete view [RulesView.view_field]: a decoder of the option trees
+   of (buf.validate.field), (j5.ext.v1.field), (j5.list.v1.field), (j5.ext.v1.key) into
+   the reader's annotation record, proved to depend on the content of the field only
+   (view_field_content) and compared on every run, for every compiled field, with the
+   annotations the harness dumps from the real descriptor (stream C04View). No
+   parameter is left: print a well-formed descriptor file, parse the tokens, decode
+   each field of each message, read — the same properties as before printing. *)
+Theorem C04_text_concrete : forall env imp D,
+  wf_dfile imp D ->
+  exists D',
+    parse_file_tokens imp (print_file_tokens (to_symtab (dfile_symtab imp D)) D) = Some D' /\
+    forall k c n o body,
+      In (DMsg k c n o body) (d_body D) -> in_print_order body ->
+      exists k' o' body',
+        In (DMsg k' c n o' body') (d_body D') /\
+        read_object env (map view_field (body_fields body')) = read_object env (map view_field (body_fields body)).
+Proof. exact c04_text_concrete. Qed.
+Print Assumptions C04_text_concrete.
+
+(* ... and with the two hypotheses about the descriptor DECIDED: [wf_dfile_b] (family
+   tool's checker of the printer / parser theorem's domain, sound by
+   wf_dfile_b_sound) and [file_in_order_b] (bodies listed in print order). The C04File
+   stream evaluates both on the real descriptor of every generated compile unit, and
+   compares [RulesTextModel.read_msg_text] (this chain, computed) with what the real
+   reflector reads from the really printed and re-parsed text. *)
+Theorem C04_text_checked : forall env imp D,
+  wf_dfile_b imp D = true -> file_in_order_b D = true ->
+  exists D',
+    parse_file_tokens imp (print_file_tokens (to_symtab (dfile_symtab imp D)) D) = Some D' /\
+    forall k c n o body,
+      In (DMsg k c n o body) (d_body D) ->
+      exists k' o' body',
+        In (DMsg k' c n o' body') (d_body D') /\
+        read_object env (map view_field (body_fields body')) = read_object env (map view_field (body_fields body)).
+Proof. exact c04_text_checked. Qed.
+Print Assumptions C04_text_checked.
+
+Theorem C04_view_reads_content : forall f f', field_equiv f f' -> view_field f = view_field f'.
+Proof. exact view_field_content. Qed.
+Print Assumptions C04_view_reads_content.
+
+(* the hypothesis on the view is satisfiable by one that reads real content *)
+Theorem C04_text_view_exists :
+  forall f f', field_equiv f f' -> c04_proj (basic_view f) = c04_proj (basic_view f').
+Proof. exact basic_view_content. Qed.
+Print Assumptions C04_text_view_exists.
+
+(* names, order and proto paths for EVERY compiled object that reflects at all —
+   no fragment hypothesis: whatever else is lost, the reflected object has the
+   declared property names in the declared order and the paths [1], [2], ... *)
+Theorem C04_names_order_paths : forall env ds os rs,
+  write_object env ds = Ok os -> read_object env os = Ok rs ->
+  map (fun r => p_name (rp_prop r)) rs = map p_name ds /\
+  map rp_path rs = map (fun i => [N.of_nat i]) (seq 1 (length ds)).
+Proof. exact c04_names_order_paths. Qed.
+Print Assumptions C04_names_order_paths.
 
 (* the normal form of integer rules changes no meaning *)
 Theorem C04_norm_int_meaning : forall r z, int_sem (norm_int r) z <-> int_sem r z.
 Proof. exact norm_int_sem. Qed.
 Print Assumptions C04_norm_int_meaning.
 
-(* enums as root schemas: description, prefix, option names (short), numbers
-   (UNSPECIFIED = 0, the others 1..n in order) and option descriptions *)
+(* enums as root schemas: [norm_enum] is computed from the declaration alone
+   (README: value 0 is UNSPECIFIED, explicit or not; the other options 1..n in
+   order; reflected names without the prefix; descriptions, option info and info
+   fields as declared) *)
 Theorem C04_enum : forall e, enum_rt e = true -> read_enum (write_enum e) = Ok (norm_enum e).
 Proof. exact c04_enum. Qed.
 Print Assumptions C04_enum.
+
+(* non-vacuity: an enum with an explicit zero option, a prefixed and a short option
+   name, option info and an info field lies in the fragment and reads back as declared *)
+Example C04_enum_example :
+  let e := ED [100] [67;95] [([85;78;83;80;69;67;73;70;73;69;68], [110], [([104], [48])]);
+                              ([67;95;82], [], [([104], [102;102])]); ([71], [103], [])]
+              [([104], [72], [100])] in
+  enum_rt e = true /\ read_enum (write_enum e) = Ok (norm_enum e) /\
+  map (fun o => snd (fst (fst o))) (re_options (norm_enum e)) = [0%Z; 1%Z; 2%Z] /\
+  map (fun o => fst (fst (fst o))) (re_options (norm_enum e)) = [[85;78;83;80;69;67;73;70;73;69;68]; [82]; [71]].
+Proof. cbv zeta. repeat split; vm_compute; reflexivity. Qed.
 
 (* ... except when the explicit first option is some other name ending in
    UNSPECIFIED: the reader derives the prefix from it *)
 Theorem C04_enum_unspecified_refuted :
   exists e, read_enum (write_enum e) <> Ok (norm_enum e).
 Proof.
-  exists (ED [] [67;95] [([88;95;85;78;83;80;69;67;73;70;73;69;68], []); ([82], [])]).
+  exists (ED [] [67;95] [([88;95;85;78;83;80;69;67;73;70;73;69;68], [], []); ([82], [], [])] []).
   vm_compute. discriminate.
 Qed.
 Print Assumptions C04_enum_unspecified_refuted.
+
+(* ... or when a description has a line the reader's commentDescription drops ("# ...") *)
+Theorem C04_enum_description_refuted :
+  exists e, read_enum (write_enum e) <> Ok (norm_enum e).
+Proof.
+  exists (ED [35;32;104] [67;95] [([82], [], [])] []).
+  vm_compute. discriminate.
+Qed.
+Print Assumptions C04_enum_description_refuted.
 
 (* What is missing, each with a witness on the faithful model that replays on
    the real compiler + reflector (KNOWN_FINDINGS.txt): *)
@@ -102,77 +227,128 @@ Definition not_read_back (env : enum_env) (d : prop) : Prop :=
 
 Local Notation plain name t := (P name false false t []).
 
+(* a description with a line starting with '#' — commentDescription drops the line *)
+Theorem C04_description_refuted :
+  not_read_back (EE [] None []) (P [97] false false (PSingle (TStr None None None)) [35;32;104]).
+Proof. eexists. split; [vm_compute; reflexivity|]. vm_compute. discriminate. Qed.
+Print Assumptions C04_description_refuted.
+
+(* optional = true on an array (or a map) — explicitlyOptional is read for singular properties only *)
+Theorem C04_array_optional_refuted :
+  not_read_back (EE [] None []) (P [97] false true (PArray None None (TStr None None None)) []).
+Proof. eexists. split; [vm_compute; reflexivity|]. vm_compute. discriminate. Qed.
+Print Assumptions C04_array_optional_refuted.
+
+(* a string whose pattern is the published id62 pattern reads back as key:id62 *)
+Theorem C04_string_id62_pattern_refuted :
+  not_read_back (EE [] None []) (plain [97] (PSingle (TStr None (Some (SR (Some Id62Gen.pattern_string) None None)) None))).
+Proof. eexists. split; [vm_compute; reflexivity|]. vm_compute. discriminate. Qed.
+Print Assumptions C04_string_id62_pattern_refuted.
+
+(* ... whose pattern is the reader's well-known date pattern reads back as format "date", the pattern dropped *)
+Theorem C04_string_date_pattern_refuted :
+  not_read_back (EE [] None []) (plain [97] (PSingle (TStr None (Some (SR (Some date_pattern) None None)) None))).
+Proof. eexists. split; [vm_compute; reflexivity|]. vm_compute. discriminate. Qed.
+Print Assumptions C04_string_date_pattern_refuted.
+
+(* ... and with list rules on top the reader fails altogether *)
+Theorem C04_string_wellknown_listrules_fails :
+  exists o, write_prop (EE [] None []) 0
+              (plain [97] (PSingle (TStr None (Some (SR (Some date_pattern) None None)) (Some (LP false false true false []))))) = Ok o
+            /\ is_err (read_prop (EE [] None []) o) = true.
+Proof. eexists. split; [vm_compute; reflexivity|]. vm_compute. reflexivity. Qed.
+Print Assumptions C04_string_wellknown_listrules_fails.
+
 (* string format — StringField.format is not written at all *)
 Theorem C04_string_format_refuted :
-  not_read_back (EE [] []) (plain [97] (PSingle (TStr (Some [117;114;105]) None None))).
+  not_read_back (EE [] None []) (plain [97] (PSingle (TStr (Some [117;114;105]) None None))).
 Proof. eexists. split; [vm_compute; reflexivity|]. vm_compute. discriminate. Qed.
 Print Assumptions C04_string_format_refuted.
 
 (* array of any with types — (j5.ext.v1.field).any is replaced by the array annotation *)
 Theorem C04_array_any_types_refuted :
-  not_read_back (EE [] []) (plain [97] (PArray None None (TAny true [[120]] None))).
+  not_read_back (EE [] None []) (plain [97] (PArray None None (TAny true [[120]] None))).
 Proof. eexists. split; [vm_compute; reflexivity|]. vm_compute. discriminate. Qed.
 Print Assumptions C04_array_any_types_refuted.
 
 (* array of key:custom / key:informal — the format lives in (j5.ext.v1.field).key, which the array annotation replaces *)
 Theorem C04_array_key_custom_refuted :
-  not_read_back (EE [] []) (plain [97] (PArray None None (TKey (Some (KCustom [94;97;36])) None None))).
+  not_read_back (EE [] None []) (plain [97] (PArray None None (TKey (Some (KCustom [94;97;36])) None None))).
 Proof. eexists. split; [vm_compute; reflexivity|]. vm_compute. discriminate. Qed.
 Print Assumptions C04_array_key_custom_refuted.
 
 Theorem C04_array_key_informal_refuted :
-  not_read_back (EE [] []) (plain [97] (PArray None None (TKey (Some KInformal) None None))).
+  not_read_back (EE [] None []) (plain [97] (PArray None None (TKey (Some KInformal) None None))).
 Proof. eexists. split; [vm_compute; reflexivity|]. vm_compute. discriminate. Qed.
 Print Assumptions C04_array_key_informal_refuted.
 
 (* key:custom with list rules — written as a unique_string foreign key, reads back informal *)
 Theorem C04_key_custom_listrules_refuted :
-  not_read_back (EE [] []) (plain [97] (PSingle (TKey (Some (KCustom [94;97;36])) None (Some (LP true false false false []))))).
+  not_read_back (EE [] None []) (plain [97] (PSingle (TKey (Some (KCustom [94;97;36])) None (Some (LP true false false false []))))).
 Proof. eexists. split; [vm_compute; reflexivity|]. vm_compute. discriminate. Qed.
 Print Assumptions C04_key_custom_listrules_refuted.
 
 (* key without format but with list rules — reads back as informal *)
 Theorem C04_key_listrules_refuted :
-  not_read_back (EE [] []) (plain [97] (PSingle (TKey None None (Some (LP true false false false []))))).
+  not_read_back (EE [] None []) (plain [97] (PSingle (TKey None None (Some (LP true false false false []))))).
 Proof. eexists. split; [vm_compute; reflexivity|]. vm_compute. discriminate. Qed.
 Print Assumptions C04_key_listrules_refuted.
 
 (* array of keys without format or entity key — (j5.ext.v1.field) is the array's, the items read back as strings *)
 Theorem C04_array_key_refuted :
-  not_read_back (EE [] []) (plain [97] (PArray None None (TKey None None None))).
+  not_read_back (EE [] None []) (plain [97] (PArray None None (TKey None None None))).
 Proof. eexists. split; [vm_compute; reflexivity|]. vm_compute. discriminate. Qed.
 Print Assumptions C04_array_key_refuted.
 
 (* array of dates with rules — the date rules live in (j5.ext.v1.field), which the array overwrites *)
 Theorem C04_array_date_rules_refuted :
-  not_read_back (EE [] []) (plain [97] (PArray None None (TDate (Some (TR (Some [50]) None None None)) None))).
+  not_read_back (EE [] None []) (plain [97] (PArray None None (TDate (Some (TR (Some [50]) None None None)) None))).
 Proof. eexists. split; [vm_compute; reflexivity|]. vm_compute. discriminate. Qed.
 Print Assumptions C04_array_date_rules_refuted.
 
 (* array of flattened objects *)
 Theorem C04_array_flatten_refuted :
-  not_read_back (EE [] []) (plain [97] (PArray None None (TObject true))).
+  not_read_back (EE [] None []) (plain [97] (PArray None None (TObject true None))).
 Proof. eexists. split; [vm_compute; reflexivity|]. vm_compute. discriminate. Qed.
 Print Assumptions C04_array_flatten_refuted.
 
+(* timestamp rules — "None Implemented": the writer emits an empty TimestampRules, the bounds are lost *)
+Theorem C04_timestamp_rules_refuted :
+  not_read_back (EE [] None []) (plain [97] (PSingle (TTimestamp (Some (TSR (Some 5%Z) None None None)) None))).
+Proof. eexists. split; [vm_compute; reflexivity|]. vm_compute. discriminate. Qed.
+Print Assumptions C04_timestamp_rules_refuted.
+
+(* object rules — minProperties / maxProperties compile to an empty constraint and are not read back *)
+Theorem C04_object_rules_refuted :
+  not_read_back (EE [] None []) (plain [97] (PSingle (TObject false (Some (OBR (Some 1) None))))).
+Proof. eexists. split; [vm_compute; reflexivity|]. vm_compute. discriminate. Qed.
+Print Assumptions C04_object_rules_refuted.
+
+(* float rules do not compile at all ("TODO: float rules not implemented") *)
+Theorem C04_float_rules_do_not_compile : forall env idx name req opt f64 l desc,
+  is_ok (write_prop env idx (P name req opt (PSingle (TFloat f64 true l)) desc)) = false.
+Proof. intros. reflexivity. Qed.
+Print Assumptions C04_float_rules_do_not_compile.
+
 (* map values: list rules of the item schema stay on the entry's value field and are not read back *)
 Theorem C04_map_item_listrules_refuted :
-  not_read_back (EE [] []) (plain [97] (PMap None (TStr None None (Some (LP false false true false []))))).
+  not_read_back (EE [] None []) (plain [97] (PMap None (TStr None None (Some (LP false false true false []))))).
 Proof. eexists. split; [vm_compute; reflexivity|]. vm_compute. discriminate. Qed.
 Print Assumptions C04_map_item_listrules_refuted.
 
 Theorem C04_full_refuted : ~ C04_full_statement.
 Proof.
   intro H. destruct C04_string_format_refuted as [o [Hw Hr]].
-  specialize (H (EE [] []) [plain [97] (PSingle (TStr (Some [117;114;105]) None None))] [o]).
+  specialize (H (EE [] None []) [plain [97] (PSingle (TStr (Some [117;114;105]) None None))] [o] eq_refl).
   apply Hr. unfold write_object in H. cbn [write_props_from] in H. rewrite Hw in H. cbn [obind] in H.
   specialize (H eq_refl). cbn [read_object] in H.
-  destruct (read_prop (EE [] []) o) as [p| | |]; cbn in H; try discriminate.
+  destruct (read_prop (EE [] None []) o) as [p| | |]; cbn in H; try discriminate.
   inversion H. reflexivity.
 Qed.
 Print Assumptions C04_full_refuted.
 
-(* the reader model's switches are those of schema_from_proto.go (regenerated tables) *)
+(* the reader model's switches are those of schema_from_proto.go (regenerated tables,
+   each compared with what the model function does on probe inputs) *)
 Theorem C04_reader_table_agrees :
   forallb (fun a => match a with
                     | (k, f, smax, smin, sxmax, sxmin) =>
@@ -182,14 +358,23 @@ Theorem C04_reader_table_agrees :
                         end
                     end) RulesGen.reader_int_arms = true
   /\ RulesGen.reader_int_list_arms = RulesGen.writer_int_list_arms
-  /\ RulesGen.reader_id62_published = true.
-Proof. exact (conj reader_int_arms_agree (conj reader_int_list_arms_agree reader_id62_agree)). Qed.
+  (* wellKnownStringPatterns: read_string turns each generated pattern into the generated format *)
+  /\ forallb (fun a => ostr_eqb (model_wellknown (fst a)) (snd a)) RulesGen.reader_wellknown_literals = true
+  /\ RulesGen.reader_id62_published = model_id62_reads_as_key
+  (* and the writer's side of the same annotations *)
+  /\ RulesGen.writer_object_rules_empty = emits_typeless (TObject false (Some (OBR (Some 1) (Some 2))))
+  /\ RulesGen.writer_oneof_rules_empty = emits_typeless (TOneof true None).
+Proof.
+  exact (conj reader_int_arms_agree (conj reader_int_list_arms_agree
+        (conj (proj1 reader_wellknown_agree) (conj (proj1 reader_id62_agree)
+        (conj (proj1 (proj2 writer_reduced_rules_agree)) (proj1 (proj2 (proj2 writer_reduced_rules_agree)))))))).
+Qed.
 Print Assumptions C04_reader_table_agrees.
 
 (* non-vacuity: an object with every kind of rule lies in the fragment, compiles
    and reads back as declared *)
 Example C04_example :
-  let env := EE [67;95] [[82];[71]] in
+  let env := EE [67;95] None [[82];[71]] in
   let ds := [ P [97] true false (PSingle (TInt I32 (Some (IR (Some 1%Z) (Some 10%Z) (Some false) (Some true))) (Some (LP true true false false [])))) [100;101;115;99];
               P [98] false true (PSingle (TStr None (Some (SR (Some [94;97;36]) (Some 0) (Some 5))) None)) [];
               P [99] false false (PArray (Some (AR (Some 1) None (Some true))) (Some [120]) (TEnum (Some (ER [[82]] [[67;95;71]])) None)) [];
@@ -198,10 +383,10 @@ Example C04_example :
               P [103] false false (PSingle (TKey (Some (KCustom [94;97;36])) None None)) [];
               P [104] false false (PSingle (TKey (Some KInformal) None None)) [];
               P [102] true false (PMap (Some (MR (Some 1) None)) (TStr None (Some (SR None (Some 2) None)) None)) [] ] in
-  forallb rt_ok ds = true /\
+  zero_std env = true /\ forallb rt_ok ds = true /\
   exists os, write_object env ds = Ok os /\ read_object env os = Ok (norm_object env ds)
              /\ map (fun r => p_req (rp_prop r)) (norm_object env ds) = [true; false; false; true; false; false; false; true].
 Proof.
-  cbv zeta. split; [vm_compute; reflexivity|].
+  cbv zeta. split; [reflexivity|]. split; [vm_compute; reflexivity|].
   eexists. split; [vm_compute; reflexivity|]. split; vm_compute; reflexivity.
 Qed.
